@@ -430,6 +430,10 @@ func Replay(in []byte) any {
 	w.seed = uint64(sc.ID)*13 + 7
 	w.psize = 2 * CS
 	w.length = 3*CS - 1000
+	if sc.Geom == 1 {
+		// a length that is an exact multiple of the block size: the last block is full
+		w.length = 3 * CS
+	}
 	w.npieces, w.nchunks = 2, 3
 	t, err := mktor.New(mktor.Spec{Name: "sched", PieceLen: int64(w.psize), Length: w.length, Seed: w.seed}, "")
 	if err != nil {
